@@ -64,6 +64,14 @@ CHECKS = {
             "copy of each asset and with the nodal rows recomputed from the mapping.",
             "Trusted: scipy.sparse arithmetic; stand-alone set-up of an asset defines what 'the asset computed for it' means.",
             "DESIGN.md 5 C07"),
+    "C08": ("property-based testing (Hypothesis): metamorphic relation (add an out-of-horizon element / clip a take period) with solution transfer",
+            "Exploration: a generated portfolio is solved with and without an element placed before/after the horizon or with an "
+            "empty window (asset of any simple class, order, take period); value must not move and the solution restricted to "
+            "the base portfolio must be feasible and optimal there; reported dispatch must vanish outside every asset's window; "
+            "a partly-outside take period must equal the clipped, prorated one row by row.",
+            "Trusted: transfer.py (keys from the first mapping row), scipy residual check. A scaled asset's own window governs only "
+            "its fixed cost (dispatch follows the base asset's window).",
+            "DESIGN.md 5 C08"),
     "C19": ("property-based testing (Hypothesis) against an independent UTC-arithmetic reference model",
             "Exploration: thousands of generated grids / windows / interval lists / price inputs per run are compared "
             "with a reference written from the statement (own time arithmetic). No solver, so the comparison is exact; "
